@@ -50,6 +50,11 @@ type spRender struct {
 	// SameExtra: every finding carries the same (empty) Extra text, as real detectors mostly do; the findings are then
 	// told apart by their target only
 	SameExtra bool `json:"same_extra"`
+	// SameVersion: every package has the same version, so two packages with one type and name have identical
+	// package URLs (the same library at two locations); both must be in the index
+	SameVersion bool `json:"same_version"`
+	// PreTag: findings arrive with a stale Detectors value (a detector that reuses its finding objects)
+	PreTag bool `json:"pre_tag"`
 }
 
 type spCase struct {
@@ -88,6 +93,12 @@ func (e *spExtractorBase) ToPURL(p *extractor.Package) *purl.PackageURL {
 	}
 	return &purl.PackageURL{Type: spTypes[m.Type], Name: spNames[m.Name], Version: p.Version}
 }
+func (e *spExtractorBase) version(id int) string {
+	if e.c.Render != nil && e.c.Render.SameVersion {
+		return "1.0.0"
+	}
+	return fmt.Sprintf("1.0.%d", id)
+}
 func (e *spExtractorBase) emit(loc string) inventory.Inventory {
 	inv := inventory.Inventory{}
 	for _, id := range e.pkgs {
@@ -95,7 +106,7 @@ func (e *spExtractorBase) emit(loc string) inventory.Inventory {
 		// Package.Name deliberately differs from the purl name: the index is keyed by the purl
 		inv.Packages = append(inv.Packages, &extractor.Package{
 			Name:      fmt.Sprintf("pkg-%d", id),
-			Version:   fmt.Sprintf("1.0.%d", id),
+			Version:   e.version(id),
 			Locations: []string{loc},
 			Metadata:  &spMeta{ID: id, Type: k.Type, Name: k.Name},
 		})
@@ -164,6 +175,9 @@ func spFinding(kind, det string, pos int, r *spRender) *detector.Finding {
 	}
 	if r != nil && r.SameExtra {
 		f.Extra = ""
+	}
+	if r != nil && r.PreTag {
+		f.Detectors = []string{"zz-stale-detector"}
 	}
 	switch kind {
 	case "noadv":
@@ -401,7 +415,8 @@ func init() {
 			if c.Render == nil {
 				k := idx + seed
 				c.Render = &spRender{Body: k % nBodyRender, ID: (k / nBodyRender) % nIDRender, EnableAll: (k/(nBodyRender*nIDRender))%2 == 0,
-					SameExtra: (k/(nBodyRender*nIDRender*2))%2 == 1}
+					SameExtra: (k/(nBodyRender*nIDRender*2))%2 == 1, SameVersion: (k/(nBodyRender*nIDRender*4))%2 == 1,
+					PreTag: (k/(nBodyRender*nIDRender*8))%2 == 1}
 			}
 			obs := spRun(&c)
 			return map[string]any{"i": idx, "render": c.Render, "obs": obs}, nil
